@@ -2,6 +2,7 @@
 import hashlib
 import json
 import os
+import re
 
 from hypothesis import strategies as st
 
@@ -170,6 +171,7 @@ def run_case(case, ctx):
         parities = set(os.path.relpath(p, w.arr.root).encode() for p in w.arr.all_parity_paths())
         disks = [d.encode() for d in w.arr.all_disk_names()]
         label = "%s %s (rc=%d, array %s)" % (cmd, " ".join(args), run.rc, cond)
+        known = []
 
         def bad(k, msg):
             return Outcome(ok=False, why="%s: %s %r" % (label, msg, k), detail=ev_json(w.events, 30))
@@ -254,13 +256,29 @@ def run_case(case, ctx):
                     continue
                 if k in named or k in anc:
                     continue
+                # another name (hard link) of a file fix reports: the same inode, so the same bytes and time-stamp change
+                xk = before.get(k)
+                if xk and xk[0] == "f" and len(xk) >= 6 and xk[5] > 1 and \
+                        any(before.get(n_) and before[n_][0] == "f" and before[n_][4] == xk[4] for n_ in named):
+                    continue
                 if k.endswith(b".unrecoverable") and k[:-len(b".unrecoverable")] in unrec:
                     continue
+                # C12-stop-leaves-ancestor-dir (listed finding): fix stopped ("Stopping at block N"); a directory it had created
+                # to re-create a file of that stripe (named in an error: tag of stripe N) stays behind, empty, unreported
+                mstop = re.search(rb"Stopping at block (\d+)", run.err + run.out)
+                if mstop and before.get(k) is None and after.get(k) is not None and after[k][0] == "d":
+                    nstop = mstop.group(1)
+                    wanted = [t[2] + b"/" + t[3] for t in run.tags if t[0] == b"error" and len(t) >= 4 and t[1] == nstop]
+                    below = [x for x in after if x.startswith(k + b"/")]
+                    if any(x.startswith(k + b"/") for x in wanted) and all(after[x][0] == "d" for x in below):
+                        known.append("C12-stop-leaves-ancestor-dir")
+                        continue
                 return bad(k, "fix changed a path it does not report:")
         c2 = c
         nontrivial = c2 is not None and c2.blockmax > 0
         fp = hashlib.sha1(json.dumps(case, sort_keys=True).encode()).hexdigest()[:16]
         sample = {"cfg": case["cfg"], "condition": cond, "command": [cmd] + args, "rc": run.rc, "changed": [k.decode("latin-1") for k in changed[:8]]}
-        return Outcome(ok=True, fp=fp, nontrivial=nontrivial, classes=sorted(classes | {"damaged + read-only command"} if (cond not in ("healthy",) and (cmd, args) in READONLY) else classes), sample=sample)
+        return Outcome(ok=True, fp=fp, nontrivial=nontrivial, classes=sorted(classes | {"damaged + read-only command"} if (cond not in ("healthy",) and (cmd, args) in READONLY) else classes), sample=sample,
+                       known=sorted(set(known)))
     finally:
         w.destroy()
